@@ -20,12 +20,14 @@ def check(run, tier):
     run.mc("MC_Twin", "MC_Twin_mixed")
     run.mc("MC_Twin", "MC_Twin_distribute_fluent")
     run.mc("MC_Twin", "MC_Twin_nosplit")
+    run.mc("MC_Twin", "MC_Twin_config")
     if not q:
         run.mc("MC_Twin", "MC_Twin_transfer")
         run.mc("MC_Twin", "MC_Twin_mixed_d4", timeout=3000)
     r = rng("C03")
     progs = targeted.fault_programs("evo") + targeted.fault_programs("fluent")
     progs += targeted.round2_programs("evo") + targeted.round2_programs("fluent")
+    progs += targeted.config_programs("evo") + targeted.config_programs("fluent")
     progs += [p for p in evo.targeted_programs() if "oversized" in p["id"] or "canonical" in p["id"]]
     n = 200 if q else 4000
     for i in range(n):
@@ -34,6 +36,10 @@ def check(run, tier):
         p = programs.worklist_program(r, f"C03/r{i}", dev, r.randint(1, 6), fault_last=True, autosplit=auto,
                                       wlmax=r.choice([2, 3, 5]), unit=Fraction(1) if i % 3 else Fraction(1, 4), comps=(i % 3 != 0))
         progs.append(p)
+    # the configuration changes between operations; the last operation is made to fail
+    for i in range(60 if q else 1500):
+        progs.append(programs.worklist_program(r, f"C03/c{i}", "evo" if i % 2 == 0 else "fluent", r.randint(2, 6), fault_last=True,
+                                               wlmax=r.choice([2, 3, 5]), comps=False, reconfig_prob=0.35))
     # specification -> code: behaviours enumerated by TLC on the bounded model, replayed on the implementation
     for cfg in ("MC_TwinGen_mixed2_nosplit", "MC_TwinGen_distribute1") if q else ("MC_TwinGen_mixed2_nosplit", "MC_TwinGen_distribute1", "MC_TwinGen_distribute1_fluent", "MC_TwinGen_mixed3"):
         mprogs, res = behaviours.generate(cfg, timeout=3000)
